@@ -220,11 +220,15 @@ def monitor_chart():
 
 def fork_run(r, mode):
     """A Run around a pickled/deep-copied snapshot of r's interpreter (C18)."""
-    if mode == 'pickle':
-        it2 = pickle.loads(pickle.dumps(r.interp))
-    else:
-        it2 = copy.deepcopy(r.interp)
     r2 = copy.copy(r)
+    try:
+        if mode == 'pickle':
+            it2 = pickle.loads(pickle.dumps(r.interp))
+        else:
+            it2 = copy.deepcopy(r.interp)
+    except Exception as e:      # the snapshot itself failed: observed by every later call of the copy
+        r2.broken = 'SnapshotFailed:' + type(e).__name__
+        return r2
     r2.interp = it2
     r2.sc = it2.statechart
     r2.probes = it2.context['p'].__self__
